@@ -45,6 +45,10 @@ class CHECK(Check):
                 if d["ident"] == "":
                     d["ident"] = rng.choice("AQ")
                     d["digits"] = max(1, d["digits"])
+            if rng.random() < 0.2:
+                # a binary register whose Line object was declared with a delimiter (ignored by binary storage): it still consumes
+                # its record, so the reading terminates
+                rng.choice(defs)["delim"] = rng.choice([";", ","])
             width = defs[0]["digits"] + sum(f["size"] for f in defs[0]["fields"])
             parts = []
             for _ in range(rng.randint(0, 4)):
